@@ -48,3 +48,7 @@ void __cxa_guard_release(uint64_t *g) { *(uint8_t *)g = 1; }
 void __cxa_guard_abort(uint64_t *g) { }
 void _ZNSt8ios_base4InitC1Ev(void *p) {}
 void _ZNSt8ios_base4InitD1Ev(void *p) {}
+/* threads are not modelled: starting one is a fatal event of the harness (DESIGN C18/C19) */
+void _ZNSt6thread15_M_start_threadESt10unique_ptrINS_6_StateESt14default_deleteIS1_EEPFvvE(void *a, void *b, void *c) { VT_FATAL("std::thread start not modelled"); }
+void _ZNSt6thread4joinEv(void *a) { }
+void _ZNSt6thread6_StateD2Ev(void *a) { }
